@@ -270,11 +270,25 @@ def engine_sweep(ctx, res, scenarios, owners=None, corr_profiles=("stable", "wil
         if oracle and not sc.get("no_oracle"):
             for i, kind, det in pl.compare_spec(sc, g, l):
                 owners_i, sig = classify_spec_divergence(sc["ops"][i], g["res"][i], l["res"][i].get("spec", {}), kind, det)
+                owners_i = owners_i + extra_owners(sc)
                 res.count("spec-divergence:" + sig)
                 if want & set(owners_i):
                     res.violations.append({"signature": "oracle:" + sig + gap_class(sc), "detail": det, "scenario": sc,
                                            "impl": g["res"][i], "spec": l["res"][i].get("spec"), "op_index": i})
     return res
+
+
+def extra_owners(sc):
+    """properties that own any divergence of a scenario because of what its rules use"""
+    txt = " ".join(o.get("text", "") for o in sc["ops"] if o.get("op") == "build")
+    out = []
+    if "Retract(" in txt or "Complete(" in txt:
+        out.append("C10")
+    if any(k in txt for k in ("Boom(", "FailAt(", "F.Q.N", "Z.x", "F.Nope", '"zz"', "% 0", "[7]", "[-1]", 'Heavy("x")')):
+        out.append("C14")
+    if "Heavy(" in txt or "Sum(" in txt or "Str(" in txt or "Half(" in txt or "Neg(" in txt:
+        out.append("C13")
+    return out
 
 
 def gap_class(sc):
@@ -327,6 +341,135 @@ def run_engine_generic(ctx, mix=(("stable", 6), ("wild", 3), ("faulty", 1)), qui
     return res
 
 
+def cancel_variants(ctx, sc, g, rng):
+    """from a cancellation-free base scenario and its real run: one scenario per chosen cancellation point"""
+    out = []
+    for i, (op, r) in enumerate(zip(sc["ops"], g.get("res", []))):
+        if op.get("op") != "exec" or "polls" not in r:
+            continue
+        P = r["polls"]
+        E = len(r.get("trace") or [])
+        pts = list(range(0, P + 2))
+        evs = list(range(0, E))
+        if ctx.tier == "quick":
+            pts = sorted(set([0, 1, 2, P - 1, P, P + 1] + [rng.below(P + 2) for _ in range(5)]))
+            pts = [p for p in pts if 0 <= p <= P + 1]
+            evs = sorted(set([rng.below(E) for _ in range(3)])) if E else []
+        for p in pts:
+            v = json.loads(json.dumps(sc))
+            v["id"] = "%s@p%d" % (sc["id"], p)
+            v["ops"][i]["cancelAt"] = p
+            if p % 2 == 1:
+                v["ops"][i]["ctxErr"] = "deadline"
+            v["cancel"] = {"op": i, "poll": p}
+            out.append(v)
+        for k in evs:
+            v = json.loads(json.dumps(sc))
+            v["id"] = "%s@e%d" % (sc["id"], k)
+            v["ops"][i]["cancelAtEvent"] = k
+            v["cancel"] = {"op": i, "event": k}
+            out.append(v)
+        break
+    return out
+
+
+def monitor_cancel(sc, g):
+    """C15 on the real engine: once a poll has reported cancellation the result is the context's error (possibly
+    wrapped with the rule's name), and a pre-cancelled context fires nothing"""
+    out = []
+    info = sc.get("cancel")
+    if not info:
+        return out
+    i = info["op"]
+    r = g.get("res", [])[i] if i < len(g.get("res", [])) else {}
+    res = str(r.get("out", ""))
+    ctxclass = res == "ctx" or res.endswith(":true")
+    if "poll" in info:
+        reached = r.get("polls", 0) > info["poll"]
+        if reached and not ctxclass:
+            out.append(("C15", "cancelled-but-not-reported", "poll %d reported cancellation, result %s" % (info["poll"], res)))
+        self_cancel = any(c and c[0] in ("Cancel", "CancelRet") for c in (r.get("calls") or []))
+        if not reached and ctxclass and not self_cancel:
+            out.append(("C15", "ctx-error-without-cancellation", "run ended after %s polls, result %s" % (r.get("polls"), res)))
+        if info["poll"] == 0 and (r.get("trace") or []):
+            out.append(("C15", "precancelled-but-events", "events %s" % r.get("trace")[:3]))
+    else:
+        k = info["event"]
+        tr = r.get("trace") or []
+        if len(tr) > k + 1:
+            # after the listener cancelled during event k at most evaluation reports may follow, never an execution
+            later = tr[k + 1:]
+            if any(e[0] == "x" for e in later):
+                out.append(("C15", "fired-after-listener-cancel", "event %d cancelled, later events %s" % (k, later[:4])))
+        if len(tr) > k and not ctxclass:
+            out.append(("C15", "cancelled-but-not-reported", "listener cancelled at event %d, result %s" % (k, res)))
+    return out
+
+
+def run_c15(ctx):
+    res = Result()
+    res.rule = ("base engine scenarios (no cancellation) are run once on the real engine to count its ctx.Err() polls P and listener events E; "
+                "then one scenario per cancellation point: cancelAt=p for p in 0..P+1 (quick: boundary points + 5 random; thorough: all), "
+                "listener-triggered cancellation at event k, Canceled and DeadlineExceeded alternating, plus fact methods that cancel from inside "
+                "a condition/action; real engine vs model (trace, facts, poll count) and the C15 monitor; non-trivial = cancellation was reached")
+    rng = Rng(ctx.seed * 7919 + 15)
+    nbase = ctx.n(40, 400)
+    base = []
+    for i in range(nbase):
+        sc = gen.engine_scenario(rng.fork(), "c15-%d-%d" % (ctx.seed, i), rng.weighted([("stable", 5), ("wild", 3), ("cancel", 2)]), nexec=1)
+        for op in sc["ops"]:
+            op.pop("cancelAt", None)
+            op.pop("cancelAtEvent", None)
+            if op.get("op") == "fetch":
+                op.update({"op": "exec", "max": 5, "retErr": False, "listeners": 0})
+        base.append(sc)
+    gos = pl.run_go(base, jobs=ctx.jobs)
+    variants = corpus(ctx.prop)
+    for sc, g in zip(base, gos):
+        variants.extend(cancel_variants(ctx, sc, g, rng))
+    reached = [0]
+
+    def nontriv(g):
+        return True
+    for i in range(0, len(variants), 2000):
+        chunk = variants[i:i + 2000]
+        before = len(res.violations)
+        out = pl.correspond(chunk, jobs=ctx.jobs)
+        for sc, g, l, status, detail in out:
+            res.evaluations += 1
+            if status == "unmodelled":
+                res.unmodelled += 1
+                continue
+            if status == "crash":
+                res.corr_details.append({"id": sc["id"], "status": status, "detail": detail[:500], "scenario": sc})
+                res.corr_broken = True
+                continue
+            res.corr_compared += 1
+            if status == "mismatch":
+                res.corr_details.append({"id": sc["id"], "status": status, "detail": detail[:500], "scenario": sc})
+                res.corr_broken = True
+            info = sc.get("cancel") or {}
+            r = g.get("res", [])[info.get("op", 0)] if g.get("res") else {}
+            hit = ("poll" in info and r.get("polls", 0) > info["poll"]) or ("event" in info and len(r.get("trace") or []) > info["event"])
+            res.count("cancellation-reached" if hit else "run-ended-before-cancellation")
+            res.count("outcome:" + str(r.get("out", "")).split(":")[0])
+            key = scenario_key(sc) + json.dumps(info)
+            if hit and key not in res._distinct:
+                res._distinct.add(key)
+                res.distinct_nontrivial += 1
+                if len(res.samples) < 3:
+                    res.samples.append({"id": sc["id"], "cancel": info, "text": sc["ops"][0].get("text", "")[:400], "out": r.get("out"),
+                                        "trace": (r.get("trace") or [])[:8]})
+            for owner, sig, det in monitor_cancel(sc, g):
+                res.violations.append({"signature": "monitor:" + sig, "detail": det, "scenario": sc, "impl": r})
+            for op, rr in zip(sc["ops"], g.get("res", [])):
+                if op.get("op") == "exec" and "trace" in rr:
+                    for owner, sig, det in monitor_trace(op, rr, rule_table(sc, g, op["inst"])):
+                        if owner == "C15":
+                            res.violations.append({"signature": "monitor:" + sig, "detail": det, "scenario": sc, "impl": rr})
+    return res
+
+
 PROPS = {}
 
 
@@ -340,4 +483,9 @@ prop("C02", run=lambda ctx: run_engine_generic(ctx))
 prop("C03", run=lambda ctx: run_engine_generic(ctx))
 prop("C04", run=lambda ctx: run_engine_generic(ctx))
 prop("C06", run=lambda ctx: run_engine_generic(ctx))
+prop("C15", run=run_c15)
+prop("C10", run=lambda ctx: run_engine_generic(ctx, mix=(("stable", 5), ("wild", 4), ("cancel", 1))))
+prop("C11", run=lambda ctx: run_engine_generic(ctx))
+prop("C13", run=lambda ctx: run_engine_generic(ctx))
+prop("C14", run=lambda ctx: run_engine_generic(ctx, mix=(("faulty", 6), ("wild", 3), ("stable", 1))))
 prop("C08", run=lambda ctx: run_engine_generic(ctx, owners=["C08", "C11"]))
